@@ -204,7 +204,9 @@ NoFields == [y |-> -1, m |-> -1, d |-> -1, j |-> -1, h |-> -1, mi |-> -1, s |-> 
 \* [ok, z, sod]: ok only for a text that is exactly the formatting of the time its fields name, under a format that names a date and a time of day
 Parse(t, fmt) ==
   LET its == Items(fmt) IN
-  IF ~(\A i \in 1..Len(its) : Plain(its[i])) THEN [ok |-> FALSE, z |-> 0, sod |-> 0]
+  \* a blank-padded day directly in front of another digit has no unique reading ("%e%H" on " 611": day 6 hour 11, or day 61?): no meaning here
+  IF ~(\A i \in 1..Len(its) : Plain(its[i]) /\ (its[i].k = "spec" /\ its[i].s = 101 /\ i < Len(its) => its[i + 1].k = "lit" /\ its[i + 1].c \notin 48..57))
+  THEN [ok |-> FALSE, z |-> 0, sod |-> 0]
   ELSE LET f == Fields(t, 1, its, NoFields)
            dated == f.y \in 1..9999 /\ ((f.m \in 1..12 /\ f.d >= 1 /\ f.d <= DaysInMonth(f.y, f.m)) \/ (f.m = -1 /\ f.d = -1 /\ f.j >= 1 /\ f.j <= DaysInYear(f.y)))
            timed == f.h \in 0..23 /\ f.mi \in 0..59 /\ f.s \in 0..59
